@@ -838,28 +838,7 @@ class FxBuilder(Builder):
                 nw = sw_id[3]
                 for wi in range(nw, len(self.writes)):
                     self.writes[wi] = (self.writes[wi][0], saved_branch)
-                # merge: keep values equal in all continuing branches
-                merged = {}
-                if states:
-                    keys = set()
-                    for s in states:
-                        keys |= set(s)
-
-                    def dflt(key):
-                        if 1 <= key <= body.argc:
-                            return fr.env[key - 1] if fr.env is not None else ("param", key, body.names.get(key, "_%d" % key))
-                        return self._initvar(fr, key)
-                    for s in states:
-                        for key in keys:
-                            if key not in s:
-                                s[key] = base_state.get(key, dflt(key))
-                    for key in keys:
-                        v0 = states[0][key]
-                        if all(s[key] == v0 for s in states[1:]):
-                            merged[key] = v0
-                        else:
-                            merged[key] = ("phi", sw_id, body.names.get(key, "_%d" % key),
-                                           tuple((lab, s[key]) for lab, s in zip(state_labels, states)))
+                merged = self._merge_states(fr, base_state, states, state_labels, sw_id)
                 fr.state = merged
                 nodes.append(("switch", d, branches, site, case_vals, sw_id))
                 b = join
@@ -867,6 +846,97 @@ class FxBuilder(Builder):
                 nodes.append(("unreachable", site))
                 break
         return nodes
+
+    def _merge_states(self, fr, base_state, states, state_labels, sw_id):
+        """Join of the local states of the continuing branches of a switch: equal values are kept, different ones become phi nodes."""
+        body = fr.body
+        merged = {}
+        if states:
+            keys = set()
+            for s in states:
+                keys |= set(s)
+
+            def dflt(key):
+                if 1 <= key <= body.argc:
+                    return fr.env[key - 1] if fr.env is not None else ("param", key, body.names.get(key, "_%d" % key))
+                return self._initvar(fr, key)
+            for s in states:
+                for key in keys:
+                    if key not in s:
+                        s[key] = base_state.get(key, dflt(key))
+            for key in keys:
+                v0 = states[0][key]
+                if all(s[key] == v0 for s in states[1:]):
+                    merged[key] = v0
+                else:
+                    merged[key] = ("phi", sw_id, body.names.get(key, "_%d" % key),
+                                   tuple((lab, s[key]) for lab, s in zip(state_labels, states)))
+        return merged
+
+    def _combinator(self, fr, base, args, hidden, site, nodes):
+        """`x.map(f)`, `x.map_err(f)`, `x.and_then(f)`, `x.filter(f)` on an Option/Result whose variant is not known: modelled as
+        the `match` they abbreviate - a switch on the discriminant with the closure spliced into the branch that calls it."""
+        if not base or len(args) != 2:
+            return None
+        last = base.split("::")[-1]
+        is_opt = base.startswith("core::option::Option::<")
+        is_res = base.startswith("core::result::Result::<")
+        if last not in ("map", "map_err", "and_then", "filter") or not (is_opt or is_res) or fr.depth >= self.max_depth:
+            return None
+        if last == "filter" and not is_opt or last == "map_err" and not is_res:
+            return None
+        x, fnv = args
+        if x[0] == "agg":
+            return None
+        clos = [h for h in (hidden or []) if h in self.facts.fns]
+        if fnv[0] == "fn" and fnv[1] in self.facts.fns:
+            callee = self.facts.fns[fnv[1]]
+            mk = lambda p: (p,)
+        elif len(clos) == 1:
+            callee = self.facts.fns[clos[0]]
+            mk = lambda p: (fnv, p)
+        else:
+            return None
+        OPT, RES = "core::option::Option", "core::result::Result"
+        if is_opt:
+            act_lab, pas_lab, act_v = (1,), (0,), "Some"
+            pas_val = ("agg", OPT, "None", ())
+        elif last == "map_err":
+            act_lab, pas_lab, act_v = (1,), (0,), "Err"
+            pas_val = ("agg", RES, "Ok", (N(("downcast", x, "Ok")),))
+        else:
+            act_lab, pas_lab, act_v = (0,), (1,), "Ok"
+            pas_val = ("agg", RES, "Err", (N(("downcast", x, "Err")),))
+        pay = N(("downcast", x, act_v))
+        d = self.simp(("discr", x))
+        sw_id = (fr.fn.id, site.bi, fr.id, len(self.writes), "comb")
+        base_state = dict(fr.state)
+        saved_branch = self.branch
+        fr.state = dict(base_state)
+        self.branch = saved_branch + ((sw_id, act_lab),)
+        arg = ("ref", pay) if last == "filter" else pay
+        sub, cret = self._subtree(callee, mk(arg), fr.depth + 1)
+        state_act = fr.state
+        self.branch = saved_branch
+        for wi in range(sw_id[3], len(self.writes)):
+            self.writes[wi] = (self.writes[wi][0], saved_branch)
+        if cret is None:
+            fr.state = base_state
+            return None
+        act_nodes = [("inlined", callee.id, mk(arg), sub, site, cret)]
+        if last == "map":
+            act_val = ("agg", OPT if is_opt else RES, act_v, (cret,))
+        elif last == "map_err":
+            act_val = ("agg", RES, "Err", (cret,))
+        elif last == "and_then":
+            act_val = cret
+        else:
+            sw2 = sw_id[:4] + ("filter",)
+            act_nodes.append(("switch", cret, {(0,): [], "else": []}, site, (0,), sw2))
+            act_val = ("phi", sw2, "_keep", (((0,), ("agg", OPT, "None", ())), ("else", ("agg", OPT, "Some", (pay,)))))
+        fr.state = self._merge_states(fr, base_state, [state_act, dict(base_state)], [act_lab, pas_lab], sw_id)
+        nodes.append(("switch", d, {act_lab: act_nodes, pas_lab: []}, site, (0, 1), sw_id))
+        return ("phi", sw_id, "_" + last, ((act_lab, act_val), (pas_lab, pas_val)))
 
     def _discr_domain(self, fr, place):
         """Set of discriminant values of the enum stored at `place` (None if unknown)."""
@@ -947,6 +1017,8 @@ class FxBuilder(Builder):
         ret = None
         spliced = False
         veq = self._value_eq_call(name, args)
+        if veq is None and "ext" in f:
+            veq = self._combinator(fr, base, args, f.get("hidden") or [], site, nodes)
         if veq is None:
             self._model_nodes = []
             veq = self._ext_model(base, args, fr.depth, f.get("hidden") or [])
@@ -1343,6 +1415,8 @@ def simplify_variants(e):
                 return ("agg", _OPT, "Some", a0[3]) if v == "Ok" else ("agg", _OPT, "None", ())
             if last in ("unwrap", "expect") and v in ("Some", "Ok"):
                 return a0[3][0]
+            if last == "unwrap_or" and len(args) == 2:
+                return a0[3][0] if v in ("Some", "Ok") else args[1]
             if last == "is_err":
                 return ("const", 1 if v == "Err" else 0, "bool")
             if last == "is_ok":
